@@ -29,8 +29,8 @@ func MainC07(prop, tier string) int {
 		r.Floor("filter_runs", 1)
 		return r.Finish()
 	}
-	r.Fanout("c07filter", vk.NumWorkers(), 30*time.Minute)
-	r.Fanout("c07tty", vk.NumWorkers(), 30*time.Minute)
+	r.Fanout("c07filter", vk.NumWorkers(), 90*time.Minute)
+	r.Fanout("c07tty", vk.NumWorkers(), 90*time.Minute)
 	r.Floor("filter_runs", 500)
 	r.Floor("interactive_sessions", 20)
 	return r.Finish()
@@ -100,7 +100,7 @@ func workerC07Filter(r *vk.Run, w, n int, args []string) {
 	bin, _ := fzfrun.Bin()
 	total := 16000
 	if !r.Quick() {
-		total = 160000
+		total = 800000
 	}
 	per := total / n
 	for i := 0; i < per; i++ {
@@ -275,7 +275,7 @@ func workerC07Tty(r *vk.Run, w, n int, args []string) {
 	rng := rand.New(rand.NewSource(r.Seed*2203 + int64(w)*149 + 6))
 	sessions := 480
 	if !r.Quick() {
-		sessions = 2400
+		sessions = 12000
 	}
 	per := sessions/n + 1
 	for i := 0; i < per; i++ {
